@@ -38,6 +38,8 @@ impl ToPrimitive for u128 {
 pub assume_specification<T, U, F: FnOnce(T) -> U> [Option::<T>::map_or] (o: Option<T>, default: U, f: F) -> (r: U)
     requires o is Some ==> f.requires((o->Some_0,))
     ensures o is None ==> r == default, o is Some ==> f.ensures((o->Some_0,), r);
+/// `to_owned` of a Clone type is its clone
+pub assume_specification<T: Clone> [<T as std::borrow::ToOwned>::to_owned] (s: &T) -> (r: T) ensures vstd::pervasive::cloned::<T>(*s, r);
 pub assume_specification<T, F: FnOnce(T) -> bool> [Option::<T>::is_some_and] (o: Option<T>, f: F) -> (r: bool)
     requires o is Some ==> f.requires((o->Some_0,))
     ensures o is None ==> !r, o is Some ==> f.ensures((o->Some_0,), r);
@@ -68,8 +70,30 @@ impl<V> BTreeMap<u64, V> {
         } { unimplemented!() }
     #[verifier::external_body]
     pub fn is_empty(&self) -> (r: bool) ensures r == (btree_view(*self).dom() =~= vstd::set::Set::<u64>::empty()) { unimplemented!() }
+    #[verifier::external_body]
+    pub fn clear(&mut self) ensures btree_view(*final(self)) =~= vstd::map::Map::<u64, V>::empty() { unimplemented!() }
+    /// `range(..=hi)` / `range(..hi)`: the entries below the bound (only the back end of the iterator is modelled)
+    #[verifier::external_body]
+    pub fn range<R: U64UpperBound>(&self, r: R) -> (it: BTreeRangeTo<'_, V>) ensures it.m == self, it.hi == r.upper() { unimplemented!() }
 }
-/// weak spec (enough to type-check mutants; nothing about WHICH elements stay beyond being old elements in order is claimed)
+pub trait U64UpperBound { spec fn upper(&self) -> int; }
+impl U64UpperBound for core::ops::RangeToInclusive<u64> { open spec fn upper(&self) -> int { self.end as int + 1 } }
+impl U64UpperBound for core::ops::RangeTo<u64> { open spec fn upper(&self) -> int { self.end as int } }
+pub struct BTreeRangeTo<'a, V> { pub m: &'a BTreeMap<u64, V>, pub hi: int }
+impl<'a, V> BTreeRangeTo<'a, V> {
+    /// the greatest entry strictly below the bound, if any
+    #[verifier::external_body]
+    pub fn next_back(&mut self) -> (r: Option<(&'a u64, &'a V)>)
+        ensures match r {
+            None => forall|k: u64| btree_view(*old(self).m).contains_key(k) ==> k >= old(self).hi,
+            Some((k, v)) => btree_view(*old(self).m).contains_key(*k) && *k < old(self).hi && btree_view(*old(self).m)[*k] == *v
+                && forall|k2: u64| btree_view(*old(self).m).contains_key(k2) && k2 < old(self).hi ==> k2 <= *k,
+        } { unimplemented!() }
+}
+impl<V> HashMap<u64, V> {
+    #[verifier::external_body]
+    pub fn clear(&mut self) { unimplemented!() }
+}
 /// Vec::retain keeps, in order, exactly the elements the predicate accepts (std documentation)
 pub assume_specification<T, A: core::alloc::Allocator, F: FnMut(&T) -> bool> [Vec::<T, A>::retain] (v: &mut Vec<T, A>, f: F)
     requires forall|x: T| old(v)@.contains(x) ==> f.requires((&x,))
